@@ -3,8 +3,19 @@
 // Harness for C28 (concurrent API use gives the same results as sequential use).
 //
 //	c28 sched                            stdin: "sched <turns>" lines, deterministic replay of a schedule on the real wir package (see schedReplay)
+//	c28 gate                             stdin: jobs (the "B" calls).  Deterministic overlap: a BuildVFS call A (in-memory project with
+//	                                     OS- and tag-selected files, three targets) is PAUSED inside its loader at the moment it opens one
+//	                                     of its files, a B call runs to completion, A is released; both results must equal their run-alone
+//	                                     results.  Every file A opens is used as a pause point.  (see gateMode)
 //	c28 <G> <iters> <seed> [flags]       flags (comma separated): serial | lockcompile | once (single baseline run)
-//	                                     stdin: one job per line  "<op> <path> [virtual-name]"   (op: build | run | fmt)
+//	                                     stdin: one job per line  "<op> <path|-> [os=<target os>] [name=<virtual name>]"
+//	                                     op: build | run | fmt | vfs (api.BuildVFS of the built-in in-memory project)
+//
+// Every Config is template.Clone() with only TargetOS changed — the template got its build tags by five appends (len 5,
+// cap 8), which is ordinary use of the public API; a callee that appends to / writes into the shared slice is visible to
+// the other calls.  Every call runs under a WATCHDOG (env C28_WATCHDOG_S, default 240): a call that does not return is
+// reported as BLOCKED (with the most recent failed call as context) and ends the run — e.g. a lock leaked by a call that
+// panicked or failed earlier.
 //
 // Phase 1 (sequential baseline): every job is executed once, alone; its canonical result is recorded:
 //
@@ -28,7 +39,8 @@
 //	UNSTABLE <job index> <first> <second>
 //	WRONG <job index> <goroutine> <iteration> <hex baseline> <hex got>
 //	PANIC <job index> <goroutine> <iteration> <hex message + top frames>
-//	DONE calls=<n> wrong=<k> panics=<p> unstable=<u>
+//	BLOCKED <job index> <goroutine> <iteration> <phase: baseline|concurrent> <hex: last failed call before it>
+//	DONE calls=<n> wrong=<k> panics=<p> unstable=<u> blocked=<b>
 package main
 
 import (
@@ -36,6 +48,7 @@ import (
 	"crypto/sha256"
 	"encoding/hex"
 	"fmt"
+	"io/fs"
 	"math/rand"
 	"os"
 	"path/filepath"
@@ -43,6 +56,9 @@ import (
 	"strconv"
 	"strings"
 	"sync"
+	"sync/atomic"
+	"testing/fstest"
+	"time"
 
 	"wa-lang.org/wa/api"
 	"wa-lang.org/wa/internal/backends/compiler_wat"
@@ -52,6 +68,7 @@ import (
 	"wa-lang.org/wa/internal/wat/watutil"
 	"wa-lang.org/wa/internal/wazero"
 	"wa-lang.org/wa/internal/zz_verif/vh"
+	wasrc "wa-lang.org/wa/waroot/src"
 )
 
 // ---- "lockcompile" experiment: the same three public operations, re-assembled from the same steps as
@@ -60,8 +77,8 @@ import (
 var lockCompile bool
 var compileMu sync.Mutex
 
-func buildFileLockedCompile(filename, src string) (mainFunc string, wat, fset []byte, err error) {
-	prog, err := api.LoadProgramFile(api.DefaultConfig(), filename, src)
+func buildFileLockedCompile(cfg *api.Config, filename, src string) (mainFunc string, wat, fset []byte, err error) {
+	prog, err := api.LoadProgramFile(cfg, filename, src)
 	if err != nil || prog == nil {
 		return "", nil, nil, err
 	}
@@ -77,8 +94,8 @@ func buildFileLockedCompile(filename, src string) (mainFunc string, wat, fset []
 	return mainFunc, []byte(watOut), fset, err
 }
 
-func runCodeLockedCompile(filename, code string) (out []byte, err error) {
-	mainFunc, watBytes, fsetBytes, err := buildFileLockedCompile(filename, code)
+func runCodeLockedCompile(cfg *api.Config, filename, code string) (out []byte, err error) {
+	mainFunc, watBytes, fsetBytes, err := buildFileLockedCompile(cfg, filename, code)
 	if err != nil {
 		return
 	}
@@ -153,7 +170,51 @@ func schedReplay(turns string) string {
 }
 
 type job struct {
-	op, path, vname, src string
+	op, path, vname, src, os string
+}
+
+// ---- configs: clones of ONE template
+var template = func() *api.Config {
+	base := api.DefaultConfig()
+	for _, tag := range []string{"c28a", "c28b", "c28c", "c28d", "c28e"} {
+		base.BuilgTags = append(base.BuilgTags, tag)
+	}
+	return base
+}()
+
+func cfgFor(j *job) *api.Config {
+	c := template.Clone()
+	if j.os != "" {
+		c.TargetOS = j.os
+	}
+	return c
+}
+
+// ---- the in-memory project of the `vfs` jobs: three imported packages whose files are selected by `#wa:build` lines on
+// the target OS (js / unknown) and on a user tag of the template (c28a).  Which variant went into the output is visible
+// in the WAT (marker functions), so a call that evaluates its build tags with ANOTHER call's target gives a different digest.
+func projectFS() fstest.MapFS {
+	f := func(s string) *fstest.MapFile { return &fstest.MapFile{Data: []byte(s)} }
+	return fstest.MapFS{
+		"wa.mod":  f("name = \"c28app\"\npkgpath = \"c28app\"\nversion = \"0.0.1\"\n"),
+		"main.wa": f("\nimport \"c28app/plat\"\nimport \"c28app/tgt\"\nimport \"c28app/opt\"\n\nfunc main {\n\tprintln(plat.Name(), tgt.Name(), opt.Name())\n}\n"),
+		"plat/web.wa":      f("\n#wa:build js\n\nfunc Name => string {\n\treturn \"plat:js\"\n}\n\nfunc MarkerWeb {}\n"),
+		"plat/fallback.wa": f("\n#wa:build !js\n\nfunc Name => string {\n\treturn \"plat:other\"\n}\n\nfunc MarkerFallback {}\n"),
+		"tgt/unk.wa":       f("\n#wa:build unknown\n\nfunc Name => string {\n\treturn \"tgt:unknown\"\n}\n\nfunc MarkerUnknown {}\n"),
+		"tgt/known.wa":     f("\n#wa:build !unknown\n\nfunc Name => string {\n\treturn \"tgt:known\"\n}\n\nfunc MarkerKnown {}\n"),
+		"opt/tagged.wa":    f("\n#wa:build c28a\n\nfunc Name => string {\n\treturn \"opt:c28a\"\n}\n\nfunc MarkerTagged {}\n"),
+		"opt/untagged.wa":  f("\n#wa:build !c28a\n\nfunc Name => string {\n\treturn \"opt:plain\"\n}\n\nfunc MarkerUntagged {}\n"),
+	}
+}
+
+func markers(wat []byte) string {
+	var m []string
+	for _, k := range []string{"MarkerWeb", "MarkerFallback", "MarkerUnknown", "MarkerKnown", "MarkerTagged", "MarkerUntagged"} {
+		if strings.Contains(string(wat), "."+k) {
+			m = append(m, k)
+		}
+	}
+	return strings.Join(m, "+")
 }
 
 func sha(b ...[]byte) string {
@@ -173,12 +234,12 @@ func oneLine(s string) string {
 	return s
 }
 
-// exec runs one API call and canonicalises its result.  Panics are returned as (…, panicMsg).
-func exec(j *job) (res string, panicMsg string) {
+// exec runs one API call and canonicalises its result.  A panic is a result too ("panic <message>"): legal programs can
+// make the backend panic (unsafe.MakeString -> panic("TODO…")), alone as well as concurrently; `where` carries the frames.
+func exec(j *job, app fs.FS) (res string, where string) {
 	defer func() {
 		if r := recover(); r != nil {
 			st := string(debug.Stack())
-			// keep the frames below the panic machinery (where it happened)
 			var frames []string
 			for _, ln := range strings.Split(st, "\n") {
 				if strings.HasPrefix(ln, "wa-lang.org/wa/") && !strings.Contains(ln, "zz_verif") {
@@ -188,18 +249,19 @@ func exec(j *job) (res string, panicMsg string) {
 					}
 				}
 			}
-			res, panicMsg = "panic", oneLine(fmt.Sprint(r))+" @ "+strings.Join(frames, " <- ")
+			res, where = "panic "+oneLine(fmt.Sprint(r)), strings.Join(frames, " <- ")
 		}
 	}()
+	cfg := cfgFor(j)
 	switch j.op {
 	case "build":
 		var mainFn string
 		var wat []byte
 		var err error
 		if lockCompile {
-			mainFn, wat, _, err = buildFileLockedCompile(j.vname, j.src)
+			mainFn, wat, _, err = buildFileLockedCompile(cfg, j.vname, j.src)
 		} else {
-			mainFn, wat, _, err = api.BuildFile(api.DefaultConfig(), j.vname, j.src)
+			mainFn, wat, _, err = api.BuildFile(cfg, j.vname, j.src)
 		}
 		if err != nil {
 			return "err " + oneLine(err.Error()), ""
@@ -209,9 +271,9 @@ func exec(j *job) (res string, panicMsg string) {
 		var out []byte
 		var err error
 		if lockCompile {
-			out, err = runCodeLockedCompile(j.vname, j.src)
+			out, err = runCodeLockedCompile(cfg, j.vname, j.src)
 		} else {
-			out, err = api.RunCode(api.DefaultConfig(), j.vname, j.src)
+			out, err = api.RunCode(cfg, j.vname, j.src)
 		}
 		if err != nil {
 			return "err " + oneLine(err.Error()) + " " + sha(out), ""
@@ -223,8 +285,199 @@ func exec(j *job) (res string, panicMsg string) {
 			return "err " + oneLine(err.Error()), ""
 		}
 		return "ok " + sha([]byte(s)), ""
+	case "vfs":
+		if app == nil {
+			app = projectFS()
+		}
+		wat, err := api.BuildVFS(cfg, &api.PkgVFS{App: app, Std: wasrc.GetStdFS()}, ".")
+		if err != nil {
+			return "err " + oneLine(err.Error()), ""
+		}
+		return "ok " + sha(wat) + " variants=" + markers(wat), ""
 	}
 	return "bad-op", ""
+}
+
+var watchdog = func() time.Duration {
+	if v, err := strconv.Atoi(os.Getenv("C28_WATCHDOG_S")); err == nil && v > 0 {
+		return time.Duration(v) * time.Second
+	}
+	return 240 * time.Second
+}()
+
+type result struct{ res, where string }
+
+// execTimed: the call in its own goroutine; blocked = it did not return within the watchdog (the goroutine is abandoned)
+func execTimed(j *job, app fs.FS, d time.Duration) (res, where string, blocked bool) {
+	ch := make(chan result, 1)
+	go func() {
+		r, w := exec(j, app)
+		ch <- result{r, w}
+	}()
+	select {
+	case r := <-ch:
+		return r.res, r.where, false
+	case <-time.After(d):
+		return "blocked", "", true
+	}
+}
+
+func readJobs() []*job {
+	var jobs []*job
+	sc := bufio.NewScanner(os.Stdin)
+	sc.Buffer(make([]byte, 1<<20), 1<<20)
+	for sc.Scan() {
+		f := strings.Fields(sc.Text())
+		if len(f) < 2 {
+			continue
+		}
+		j := &job{op: f[0], path: f[1]}
+		if f[1] != "-" {
+			src, err := os.ReadFile(f[1])
+			if err != nil {
+				fmt.Fprintln(os.Stderr, "cannot read", f[1], err)
+				os.Exit(2)
+			}
+			j.src = string(src)
+			j.vname = filepath.Base(f[1])
+		}
+		for _, x := range f[2:] {
+			if strings.HasPrefix(x, "os=") {
+				j.os = x[3:]
+			} else if strings.HasPrefix(x, "name=") {
+				j.vname = x[5:]
+			}
+		}
+		jobs = append(jobs, j)
+	}
+	return jobs
+}
+
+// ---- gate mode
+type gateFS struct {
+	fs.FS
+	name    string
+	once    sync.Once
+	reached chan struct{}
+	release chan struct{}
+}
+
+func (g *gateFS) Open(name string) (fs.File, error) {
+	if name == g.name {
+		g.once.Do(func() {
+			close(g.reached)
+			<-g.release
+		})
+	}
+	return g.FS.Open(name)
+}
+
+type recFS struct {
+	fs.FS
+	mu    sync.Mutex
+	names []string
+}
+
+func (r *recFS) Open(name string) (fs.File, error) {
+	r.mu.Lock()
+	seen := false
+	for _, n := range r.names {
+		if n == name {
+			seen = true
+		}
+	}
+	if !seen {
+		r.names = append(r.names, name)
+	}
+	r.mu.Unlock()
+	return r.FS.Open(name)
+}
+
+func gateMode() {
+	jobsB := readJobs()
+	out := bufio.NewWriter(os.Stdout)
+	defer out.Flush()
+	var as []*job
+	for _, o := range []string{"js", "unknown"} {
+		as = append(as, &job{op: "vfs", path: "-", os: o})
+	}
+	baseB := make([]string, len(jobsB))
+	for i, j := range jobsB {
+		r, _, blocked := execTimed(j, nil, watchdog)
+		baseB[i] = r
+		fmt.Fprintf(out, "GATEBASE B%d %s\n", i, r)
+		if blocked {
+			fmt.Fprintf(out, "GATEDONE n=0 wrong=0 aborted=baseline-blocked\n")
+			out.Flush()
+			os.Exit(0)
+		}
+	}
+	n, wrong := 0, 0
+	for ai, a := range as {
+		rec := &recFS{FS: projectFS()}
+		baseA, _, blocked := execTimed(a, rec, watchdog)
+		fmt.Fprintf(out, "GATEBASE A%d os=%s %s opened=%s\n", ai, a.os, baseA, strings.Join(rec.names, ","))
+		if blocked {
+			break
+		}
+		for _, gname := range rec.names {
+			for bi, b := range jobsB {
+				g := &gateFS{FS: projectFS(), name: gname, reached: make(chan struct{}), release: make(chan struct{})}
+				chA := make(chan result, 1)
+				go func() {
+					r, w := exec(a, g)
+					chA <- result{r, w}
+				}()
+				verdict, detail := "same", ""
+				var ra result
+				gotA := false
+				select {
+				case <-g.reached:
+				case ra = <-chA:
+					gotA = true
+					verdict = "A-NOT-REACHED"
+				case <-time.After(watchdog):
+					verdict = "BLOCKED-A-before-gate"
+				}
+				if verdict == "same" {
+					rb, _, bblocked := execTimed(b, nil, watchdog)
+					close(g.release)
+					select {
+					case ra = <-chA:
+						gotA = true
+					case <-time.After(watchdog):
+						verdict = "BLOCKED-A-after-release"
+					}
+					switch {
+					case bblocked:
+						verdict = "B-BLOCKED-WHILE-A-PAUSED"
+					case gotA && ra.res != baseA:
+						verdict = "WRONG-A"
+						detail = fmt.Sprintf("A (BuildVFS os=%q) paused at open(%q) while B (%s %s os=%q) ran: alone -> %s ; overlapped -> %s", a.os, gname, b.op, filepath.Base(b.path), b.os, baseA, ra.res)
+					case rb != baseB[bi]:
+						verdict = "WRONG-B"
+						detail = fmt.Sprintf("B (%s %s os=%q) run while A (BuildVFS os=%q) was paused at open(%q): alone -> %s ; overlapped -> %s", b.op, filepath.Base(b.path), b.os, a.os, gname, baseB[bi], rb)
+					}
+				} else if !gotA {
+					select {
+					case <-g.reached:
+					default:
+					}
+				}
+				n++
+				if strings.HasPrefix(verdict, "WRONG") || strings.HasPrefix(verdict, "BLOCKED") {
+					wrong++
+				}
+				fmt.Fprintf(out, "GATE A%d %s B%d %s %s\n", ai, hex.EncodeToString([]byte(gname)), bi, verdict, vh.Hex([]byte(detail)))
+				if strings.HasPrefix(verdict, "BLOCKED") {
+					fmt.Fprintf(out, "GATEDONE n=%d wrong=%d aborted=blocked\n", n, wrong)
+					out.Flush()
+					os.Exit(0)
+				}
+			}
+		}
+	}
+	fmt.Fprintf(out, "GATEDONE n=%d wrong=%d\n", n, wrong)
 }
 
 func main() {
@@ -237,8 +490,12 @@ func main() {
 		})
 		return
 	}
+	if len(os.Args) >= 2 && os.Args[1] == "gate" {
+		gateMode()
+		return
+	}
 	if len(os.Args) < 4 {
-		fmt.Fprintln(os.Stderr, "usage: c28 G iters seed [serial|lockcompile|once,...]  |  c28 sched")
+		fmt.Fprintln(os.Stderr, "usage: c28 G iters seed [serial|lockcompile|once,...]  |  c28 sched  |  c28 gate")
 		os.Exit(2)
 	}
 	G, _ := strconv.Atoi(os.Args[1])
@@ -257,28 +514,26 @@ func main() {
 			}
 		}
 	}
-
-	var jobs []*job
-	sc := bufio.NewScanner(os.Stdin)
-	sc.Buffer(make([]byte, 1<<20), 1<<20)
-	for sc.Scan() {
-		f := strings.Fields(sc.Text())
-		if len(f) < 2 {
-			continue
-		}
-		src, err := os.ReadFile(f[1])
-		if err != nil {
-			fmt.Fprintln(os.Stderr, "cannot read", f[1], err)
-			os.Exit(2)
-		}
-		vn := filepath.Base(f[1])
-		if len(f) > 2 {
-			vn = f[2]
-		}
-		jobs = append(jobs, &job{op: f[0], path: f[1], vname: vn, src: string(src)})
-	}
+	jobs := readJobs()
 	out := bufio.NewWriter(os.Stdout)
 	defer out.Flush()
+
+	var lastFailed atomic.Value // string: the most recent call that panicked or returned an error
+	lastFailed.Store("none")
+	noteFail := func(ji int, r string) {
+		if !strings.HasPrefix(r, "ok") {
+			lastFailed.Store(fmt.Sprintf("job %d (%s %s os=%q) -> %s", ji, jobs[ji].op, filepath.Base(jobs[ji].path), jobs[ji].os, oneLine(r)))
+		}
+	}
+	finishBlocked := func(ji, g, it int, phase string, calls, wrong, panics, unstable int, lines []string) {
+		for _, l := range lines {
+			fmt.Fprintln(out, l)
+		}
+		fmt.Fprintf(out, "BLOCKED %d %d %d %s %s\n", ji, g, it, phase, hex.EncodeToString([]byte(lastFailed.Load().(string))))
+		fmt.Fprintf(out, "DONE calls=%d wrong=%d panics=%d unstable=%d blocked=1\n", calls, wrong, panics, unstable)
+		out.Flush()
+		os.Exit(0) // abandoned goroutines are still stuck in the call
+	}
 
 	base := make([]string, len(jobs))
 	usable := make([]bool, len(jobs))
@@ -286,18 +541,20 @@ func main() {
 	for i, j := range jobs {
 		wasLocked := lockCompile
 		lockCompile = false // the baseline is always the PUBLIC api, alone
-		r1, p1 := exec(j)
-		r2, p2 := r1, p1
+		r1, _, b1 := execTimed(j, nil, watchdog)
+		if b1 {
+			finishBlocked(i, -1, 0, "baseline", i, 0, 0, unstable, nil)
+		}
+		noteFail(i, r1)
+		r2 := r1
 		if !once {
-			r2, p2 = exec(j)
+			var b2 bool
+			r2, _, b2 = execTimed(j, nil, watchdog)
+			if b2 {
+				finishBlocked(i, -1, 1, "baseline", i, 0, 0, unstable, nil)
+			}
 		}
 		lockCompile = wasLocked
-		if p1 != "" {
-			r1 = "panic " + p1
-		}
-		if p2 != "" {
-			r2 = "panic " + p2
-		}
 		if r1 != r2 {
 			fmt.Fprintf(out, "UNSTABLE %d %s %s\n", i, hex.EncodeToString([]byte(r1)), hex.EncodeToString([]byte(r2)))
 			unstable++
@@ -318,7 +575,7 @@ func main() {
 		}
 	}
 	if len(idx) == 0 || G < 1 {
-		fmt.Fprintf(out, "DONE calls=0 wrong=0 panics=0 unstable=%d\n", unstable)
+		fmt.Fprintf(out, "DONE calls=0 wrong=0 panics=0 unstable=%d blocked=0\n", unstable)
 		return
 	}
 
@@ -328,6 +585,8 @@ func main() {
 	calls, wrong, panics := 0, 0, 0
 	start := make(chan struct{})
 	var wg sync.WaitGroup
+	// with the compile lock in place a call may legitimately wait for G-1 others
+	wd := watchdog * time.Duration(1+G/4)
 	for g := 0; g < G; g++ {
 		wg.Add(1)
 		go func(g int) {
@@ -336,8 +595,6 @@ func main() {
 			pos := (g * len(idx)) / G
 			<-start
 			for it := 0; it < iters; it++ {
-				// mostly walk through the job list from a goroutine-specific offset (different programs in
-				// flight), sometimes jump
 				if rng.Intn(4) == 0 {
 					pos = rng.Intn(len(idx))
 				}
@@ -346,24 +603,27 @@ func main() {
 				if serial {
 					big.Lock()
 				}
-				r, pm := exec(jobs[ji])
+				r, where, blocked := execTimed(jobs[ji], nil, wd)
 				if serial {
 					big.Unlock()
 				}
-				if pm != "" {
-					r = "panic " + pm
-				}
 				mu.Lock()
+				if blocked {
+					finishBlocked(ji, g, it, "concurrent", calls, wrong, panics, unstable, lines)
+				}
+				noteFail(ji, r)
 				calls++
-				if pm != "" {
-					panics++
-					if len(lines) < 400 {
-						lines = append(lines, fmt.Sprintf("PANIC %d %d %d %s", ji, g, it, hex.EncodeToString([]byte(pm))))
-					}
-				} else if r != base[ji] {
-					wrong++
-					if len(lines) < 400 {
-						lines = append(lines, fmt.Sprintf("WRONG %d %d %d %s %s", ji, g, it, hex.EncodeToString([]byte(base[ji])), hex.EncodeToString([]byte(r))))
+				if r != base[ji] {
+					if strings.HasPrefix(r, "panic") {
+						panics++
+						if len(lines) < 400 {
+							lines = append(lines, fmt.Sprintf("PANIC %d %d %d %s", ji, g, it, hex.EncodeToString([]byte(r+" @ "+where+" (alone: "+base[ji]+")"))))
+						}
+					} else {
+						wrong++
+						if len(lines) < 400 {
+							lines = append(lines, fmt.Sprintf("WRONG %d %d %d %s %s", ji, g, it, hex.EncodeToString([]byte(base[ji])), hex.EncodeToString([]byte(r))))
+						}
 					}
 				}
 				mu.Unlock()
@@ -376,5 +636,5 @@ func main() {
 		fmt.Fprintln(out, l)
 	}
 	fmt.Fprintf(out, "UNIVERSE-CHILDREN-AT-END %d\n", types.VerifC28UniverseChildren())
-	fmt.Fprintf(out, "DONE calls=%d wrong=%d panics=%d unstable=%d\n", calls, wrong, panics, unstable)
+	fmt.Fprintf(out, "DONE calls=%d wrong=%d panics=%d unstable=%d blocked=0\n", calls, wrong, panics, unstable)
 }
